@@ -33,8 +33,11 @@ impl Vm {
     let error_message = val!(self.manage_str(message));
     // Make sure we have enough space for the error message
     // As this isn't accounted for during compilation
+    // The class call below writes the new instance into the callee slot
+    // so reserve one rather than overwriting the value currently on top
     let mut fiber = self.fiber;
-    fiber.ensure_stack(self, 1);
+    fiber.ensure_stack(self, 2);
+    fiber.push(val!(error));
     fiber.push(error_message);
 
     let mode = ExecutionMode::CallingNativeCode(self.fiber.frames().len());
